@@ -50,6 +50,7 @@ type WSCase struct {
 	FrameMax int          `json:"frame_max"` // server side MaxWebsocketFramePayloadSize
 	Compress bool         `json:"compress,omitempty"` // permessage-deflate negotiated, both directions compressed
 	Track    bool         `json:"track,omitempty"`    // C11: ownership-tracking allocators instead of the real pools
+	TLS      bool         `json:"tls,omitempty"`      // wss: TLS listener (llib, transformed), crypto/tls clients
 	Conns   []WSConnPlan  `json:"conns"`
 }
 
@@ -68,6 +69,7 @@ func genWSCase(r *simrt.Rand, tier string) *WSCase {
 	c.Pool = r.Pick(2, 4)
 	c.FrameMax = r.Pick(0, 16, 100, 1000)
 	c.Compress = r.Bool(0.3)
+	c.TLS = c.IOMod != "std" && r.Bool(0.2)
 	nc := r.Range(1, 3)
 	for i := 0; i < nc; i++ {
 		p := WSConnPlan{Frag: r.Pick(0, 0, 1, 10), Eager: r.Bool(0.6), HandlerYields: r.Pick(0, 1, 3), Piece: r.Pick(1, 7, 100000, 100000)}
@@ -83,6 +85,9 @@ func genWSCase(r *simrt.Rand, tier string) *WSCase {
 			p.Writers = append(p.Writers, ws)
 		}
 		p.End = r.PickS("", "", "reset", "appclose", "none")
+		if c.TLS && p.Piece < 7 {
+			p.Piece = 7 // one TLS record per piece
+		}
 		c.Conns = append(c.Conns, p)
 	}
 	return c
@@ -161,6 +166,11 @@ func shrinkWS(ci interface{}) []interface{} {
 		x.Compress = false
 		out = append(out, x)
 	}
+	if c.TLS {
+		x := cp()
+		x.TLS = false
+		out = append(out, x)
+	}
 	for _, s := range common.ShrinkScheds(c.Sched) {
 		x := cp()
 		x.Sched = s
@@ -187,7 +197,7 @@ func (w *hijackWriter) Hijack() (net.Conn, *bufio.ReadWriter, error) {
 
 type wsConnState struct {
 	plan      WSConnPlan
-	sock      *kernel.Sock
+	p         *peer
 	recvd     []byte // after the 101
 	hsDone    bool
 	eof       bool
@@ -364,7 +374,9 @@ func runWSCase(t *testing.T, c *WSCase, trace bool) *common.Outcome {
 				})
 			}
 		})
+		tlsOn = c.TLS
 		eng := newEngine(map[string]string{"nonblocking": "nonblocking", "blocking": "blocking", "transfer": "blocking", "std": "std"}[c.IOMod], c.Mode, c.NPoller, c.Pool, 4, handler)
+		tlsOn = false
 		eng.MaxWebsocketFramePayloadSize = c.FrameMax
 		if c.FrameMax == 0 {
 			eng.MaxWebsocketFramePayloadSize = 1 << 20
@@ -407,66 +419,59 @@ func runWSCase(t *testing.T, c *WSCase, trace bool) *common.Outcome {
 		done := 0
 		for i, plan := range c.Conns {
 			i, plan := i, plan
-			cs := &wsConnState{plan: plan, sock: k.NewPeer(kernel.TCP), wrote: map[string]bool{}}
+			cs := &wsConnState{plan: plan, wrote: map[string]bool{}}
 			conns[i] = cs
-			if err := k.ConnectPeer(cs.sock, addr); err != nil {
-				o.Infra = "client connect: " + err.Error()
-				return
+			if !c.TLS {
+				p, err := dialPeer(k, addr)
+				if err != nil {
+					o.Infra = "client connect: " + err.Error()
+					return
+				}
+				cs.p = p
+				byAddr[p.local] = cs
 			}
-			byAddr[cs.sock.Local.String()] = cs
 			var raw []byte
-			simrt.GoNamed(fmt.Sprintf("wsclient%d-reader", i), func() {
-				simrt.MarkDaemon()
-				for {
-					simrt.WaitUntil("client-readable", func() bool { return cs.sock.Readable() > 0 || cs.sock.EOF() || cs.sock.Closed() })
-					if cs.sock.Readable() == 0 {
-						cs.eof = true
-						return
-					}
-					b, err := cs.sock.PeerRead(1 << 16)
-					if err != nil {
-						cs.eof = true
-						return
-					}
-					if !cs.hsDone {
-						raw = append(raw, b...)
-						if idx := bytes.Index(raw, []byte("\r\n\r\n")); idx >= 0 {
-							if !bytes.HasPrefix(raw, []byte("HTTP/1.1 101")) {
-								fail("handshake-failed", class, "the upgrade request was answered with %q", head(raw, 60))
-								return
+			reader := func() {
+				simrt.GoNamed(fmt.Sprintf("wsclient%d-reader", i), func() {
+					simrt.MarkDaemon()
+					for {
+						b, err := cs.p.read()
+						if err != nil {
+							cs.eof = true
+							return
+						}
+						if !cs.hsDone {
+							raw = append(raw, b...)
+							if idx := bytes.Index(raw, []byte("\r\n\r\n")); idx >= 0 {
+								if !bytes.HasPrefix(raw, []byte("HTTP/1.1 101")) {
+									fail("handshake-failed", class, "the upgrade request was answered with %q", head(raw, 60))
+									return
+								}
+								cs.hsDone = true
+								cs.recvd = append(cs.recvd, raw[idx+4:]...)
 							}
-							cs.hsDone = true
-							cs.recvd = append(cs.recvd, raw[idx+4:]...)
+							continue
 						}
-						continue
+						cs.recvd = append(cs.recvd, b...)
 					}
-					cs.recvd = append(cs.recvd, b...)
-				}
-			})
-			send := func(msg []byte) bool {
-				for len(msg) > 0 {
-					n := plan.Piece
-					if n > len(msg) {
-						n = len(msg)
-					}
-					w, err := cs.sock.PeerWrite(msg[:n])
-					if err != nil {
-						return false
-					}
-					if w == 0 {
-						s := cs.sock
-						simrt.WaitUntil("client-write-room", func() bool { return s.Space() > 0 || s.WasReset() || s.Closed() })
-						if s.WasReset() || s.Closed() {
-							return false
-						}
-						continue
-					}
-					msg = msg[w:]
-				}
-				return true
+				})
 			}
+			if !c.TLS {
+				reader()
+			}
+			send := func(msg []byte) bool { return cs.p.write(msg, plan.Piece) }
 			simrt.GoNamed(fmt.Sprintf("wsclient%d", i), func() {
 				defer func() { done++ }()
+				if c.TLS {
+					p, err := dialTLSPeer(k, "127.0.0.1:8443")
+					if err != nil {
+						fail("tls-handshake-failed", class, "client %d: TLS handshake with the server failed: %v", i, err)
+						return
+					}
+					cs.p = p
+					byAddr[p.local] = cs
+					reader()
+				}
 				ext := ""
 				if c.Compress {
 					ext = "Sec-WebSocket-Extensions: permessage-deflate; server_no_context_takeover; client_no_context_takeover\r\n"
@@ -538,7 +543,7 @@ func runWSCase(t *testing.T, c *WSCase, trace bool) *common.Outcome {
 				case "reset":
 					simrt.WaitStuck("reset-point", 10*time.Millisecond, func() bool { return len(cs.gotMsgs) >= (len(plan.Msgs)+1)/2 })
 					closeRace = closeRace || pendingWriters > 0 || cs.inCB > 0
-					cs.sock.Reset()
+					cs.p.reset()
 				}
 			})
 		}
@@ -673,6 +678,9 @@ func runWSCase(t *testing.T, c *WSCase, trace bool) *common.Outcome {
 		}
 	}
 	o.NonTrivial = overlapWriters || closeRace
+	if c.TLS {
+		o.Probe("tls_run")
+	}
 	if res.HarnessErr != "" {
 		o.Infra = res.HarnessErr
 	}
